@@ -7,6 +7,7 @@ package main
 import (
 	"fmt"
 	"go/ast"
+	"go/printer"
 	"go/token"
 	"go/types"
 	"strings"
@@ -199,4 +200,11 @@ func staticCallee(info *types.Info, call *ast.CallExpr) *types.Func {
 	}
 	fn, _ := info.Uses[id].(*types.Func)
 	return fn
+}
+
+// exprText renders an expression as source text (go/printer), literals included.
+func exprText(e ast.Expr) string {
+	var b strings.Builder
+	printer.Fprint(&b, token.NewFileSet(), e)
+	return b.String()
 }
